@@ -33,7 +33,7 @@ func (propC05) ID() string { return "C05" }
 func c05Cfg() *DeclCfg {
 	return &DeclCfg{
 		Kinds: []string{"bool", "int", "int", "int32", "uint", "float64", "string", "string", "duration", "[]int", "[]string", "[]string", "map[string]int", "map[string]string",
-			"*int", "*string", "um", "[]um", "func(string)", "func(int)", "filename", "uint8", "int64", "[]float64", "map[int]string", "ulist"},
+			"*int", "*string", "um", "[]um", "func(string)", "func(int)", "filename", "uint8", "int64", "[]float64", "map[int]string", "ulist", "*[]string", "*[]int"},
 		MinOpts: 1, MaxOpts: 4, MaxGroups: 2, MaxSub: 2, MaxCmds: 2, MaxDepth: 2, Exec: true,
 		Env: true, Defaults: true, Optional: true, Choices: true, Hidden: true, Namespaces: true, Init: true, InitMulti: false, IniName: true,
 		ParserOpts: []uint{0, optHelpFlag, optHelpFlag | optPassDoubleDash, optIgnoreUnknown | optHelpFlag, optHelpFlag | optPrintErrors | optPassDoubleDash},
@@ -50,7 +50,7 @@ func c05Decl(r *Rng) *DeclSpec {
 			g.EnvNamespace = xr.Pick([]string{"APP", "NS", "X", "DEEP"})
 		}
 		for _, o := range g.Opts {
-			if o.Optional && (isSliceKind(o.Kind) || isMapKind(o.Kind)) {
+			if o.Optional && (isSliceKind(o.Kind) || isMapKind(o.Kind) || strings.HasPrefix(o.Kind, "*[]")) {
 				// a bare occurrence of an optional-argument slice/map resets the
 				// earlier occurrences: that is C01's business, keep it out of C05
 				o.Optional, o.OptionalValue = false, nil
@@ -87,8 +87,40 @@ func c05Decl(r *Rng) *DeclSpec {
 	if xr.Chance(1, 3) {
 		d.EnvNSDelim = xr.Pick([]string{"__", ".", "-"})
 	}
+	// the same INI key in two unrelated sections (two commands, or two top-level
+	// groups): each names the option of its own section
+	if kr := r.Fork("sharedkey"); kr.Chance(1, 4) {
+		region := func(oi optInfo) string {
+			if len(oi.CmdPath) > 0 {
+				return "c:" + strings.Join(oi.CmdPath, ".")
+			}
+			gp := strings.SplitN(oi.Path, "|", 3)[1]
+			return "g:" + strings.SplitN(gp, "/", 2)[0]
+		}
+		var cands []optInfo
+		for _, oi := range optInfos(d) {
+			if !oi.O.NoIni && !isFuncKind(oi.O.Kind) {
+				cands = append(cands, oi)
+			}
+		}
+		if len(cands) >= 2 {
+			a := cands[kr.Intn(len(cands))]
+			var others []optInfo
+			for _, oi := range cands {
+				if region(oi) != region(a) {
+					others = append(others, oi)
+				}
+			}
+			if len(others) > 0 {
+				b := others[kr.Intn(len(others))]
+				a.O.IniName, b.O.IniName = sharedIniKey, sharedIniKey
+			}
+		}
+	}
 	return d
 }
+
+const sharedIniKey = "shared_key"
 
 func envTextFor(r *Rng, o *OptSpec) string {
 	k := o.Kind
@@ -101,6 +133,9 @@ func envTextFor(r *Rng, o *OptSpec) string {
 		}
 		if (baseKind(k) == "string" || k == "filename") && !isMapKind(k) && r.Chance(1, 6) {
 			return r.Pick([]string{"-O2", "-->", "--x", "-", "-1"}) // option-looking text is ordinary data in the environment
+		}
+		if baseKind(k) == "string" && !isMapKind(k) && o.EnvDelim != "" && len(o.Choices) == 0 && r.Chance(1, 8) {
+			return r.Pick(plainWords) + "\\" // a backslash in front of the delimiter is an ordinary character
 		}
 		if isMapKind(k) {
 			return genPlainText(r, mapKeyKind(k)) + ":" + genPlainText(r, elemKind(k))
@@ -197,16 +232,25 @@ func (propC05) Gen(r *Rng, idx int, tier string) *Scenario {
 			}
 		}
 		// INI entries
-		if p.Shape != "parse" && p.Shape != "parse-parse" && p.Shape != "parse-delim-parse" && !o.NoIni && sr.Chance(1, 3) {
+		if p.Shape != "parse" && p.Shape != "parse-parse" && p.Shape != "parse-delim-parse" && !o.NoIni && (sr.Chance(1, 3) || (o.IniName == sharedIniKey && sr.Chance(2, 3))) {
 			n := 1
 			if isSliceKind(o.Kind) || isMapKind(o.Kind) {
 				n = sr.Range(1, 3)
 			}
 			key := sr.Pick(iniKeySpellings(oi))
+			if o.IniName == sharedIniKey {
+				key = sharedIniKey
+			}
 			for i := 0; i < n; i++ {
 				val := iniValText(sr, o)
 				if isFuncKind(o.Kind) {
 					val = envTextFor(sr, &OptSpec{Kind: o.Kind, Choices: o.Choices})
+				}
+				if o.Kind == "string" && len(o.Choices) == 0 && sr.Chance(1, 10) {
+					// a value longer than any read buffer, and not a repetition of one
+					// character (a reader that mixes up its buffers would go unnoticed)
+					pat := sr.Pick([]string{"abcdefghij", "0123456789", "xy z"})
+					val = "L" + strings.Repeat(pat, sr.Range(4100, 9000)/len(pat)) + "E"
 				}
 				p.Ini = append(p.Ini, C05Ini{Opt: oi.Path, Section: oi.Section, Key: key, Val: val})
 			}
